@@ -173,22 +173,31 @@ Section Flat.
   Lemma map_daht_W ws : map daht (map W ws) = map W ws.
   Proof. induction ws as [|w ws IH]; simpl; [reflexivity|]. rewrite IH. reflexivity. Qed.
 
+  Lemma daht_flat ws : daht (flat ws) = Op kk meta0 (fixl HBase (map W ws)).
+  Proof.
+    unfold flat.
+    change (daht (Op kk meta0 (map W ws))) with (Op kk (clone_meta meta0) (fixl (op_h kk) (map daht (map W ws)))).
+    rewrite kk_base, map_daht_W. reflexivity.
+  Qed.
+
+  Lemma print_op L : print true (Op kk meta0 L) = join OP (map (print true) L).
+  Proof. simpl. unfold wrap. simpl. rewrite app_nil_r. reflexivity. Qed.
+
   Lemma print_flat w1 w2 l :
     print true (daht (flat (w1 :: w2 :: l))) = w1 ++ tail_str (w2 :: l).
   Proof.
-    unfold flat. simpl daht. rewrite kk_base, map_daht_W. unfold fixl, mapi.
+    rewrite daht_flat, print_op. unfold fixl, mapi.
     set (n := length (map W (w1 :: w2 :: l))).
     assert (Hn : n = S (S (length l))) by (unfold n; simpl; rewrite map_length; reflexivity).
     change (map W (w1 :: w2 :: l)) with (W w1 :: map W (w2 :: l)).
     change (mapi_from 0 (fix_at HBase n) (W w1 :: map W (w2 :: l)))
       with (base_at n 0 (W w1) :: mapi_from 1 (base_at n) (map W (w2 :: l))).
-    unfold print at 1. fold print. unfold wrap. simpl m_head. simpl m_tail. rewrite app_nil_r. simpl app at 1.
     change (map (print true) (base_at n 0 (W w1) :: mapi_from 1 (base_at n) (map W (w2 :: l))))
       with (print true (base_at n 0 (W w1)) :: map (print true) (mapi_from 1 (base_at n) (map W (w2 :: l)))).
     assert (J : forall x y r, join OP (x :: y :: r) = x ++ OP ++ join OP (y :: r)) by reflexivity.
     assert (E : exists y r, map (print true) (mapi_from 1 (base_at n) (map W (w2 :: l))) = y :: r)
       by (simpl; eauto).
-    destruct E as [y [r E]]. fold OP. rewrite E, J, <- E, (join_tail n) by lia.
+    destruct E as [y [r E]]. rewrite E, J, <- E, (join_tail n) by lia.
     rewrite print_base_at by lia. destruct (Nat.eqb_spec 0 (n - 1)); [lia|].
     simpl. rewrite <- !app_assoc. reflexivity.
   Qed.
@@ -215,7 +224,10 @@ Section Flat.
     - exists []. split; [|constructor]. destruct fuel; reflexivity.
     - simpl in Hp. apply andb_prop in Hp. destruct Hp as [Hw Hws].
       pose proof (plain_termish _ Hw) as Hwt.
-      simpl tail_str in *. rewrite !app_length in Hf. simpl in Hf.
+      change (tail_str (w :: ws)) with ([c_space] ++ OP ++ [c_space] ++ w ++ tail_str ws) in *.
+      rewrite !app_length in Hf. simpl in Hf.
+      assert (HlO : 0 < length OP) by (pose proof op_termish as Ho; destruct OP; [discriminate|simpl; lia]).
+      assert (Hlw : 0 < length w) by (destruct w; [discriminate|simpl; lia]).
       (* blank *)
       destruct fuel as [|f1]; [lia|].
       destruct (op_nonspace ([c_space] ++ w ++ tail_str ws)) as [c [s [E Hc]]].
@@ -364,19 +376,23 @@ Section Flat.
       rewrite run_S.
       rewrite (step_reduce _ _ _ _ p_op N_expression [SN N_expression; ST optok; SN N_expression] aname (VItem a') evs s_e);
         [|simpl; apply T_e2; exact Hla|exact T_pop|simpl; lia| |exact G_0e].
-      + simpl skipn. destruct (IH a' (done ++ [w]) fuel ((d ++ []) ++ [] ++ evs) Ha') as [a'' [evs' [Hr Hacc]]]; [lia|].
-        simpl app in Hr. rewrite app_nil_r in Hr |- *. simpl. rewrite Hr. eexists _, _. split; [reflexivity|].
+      + simpl skipn.
+        destruct (IH a' (done ++ [w]) fuel (((d ++ []) ++ []) ++ evs) Ha') as [a'' [evs' [Hr Hacc]]]; [lia|].
+        rewrite Hr. eexists _, _. split; [reflexivity|].
         rewrite <- app_assoc in Hacc. exact Hacc.
       + simpl. unfold opv. rewrite <- Hb.
         exact (act_op a (tk_lexeme to, Some (tk_lexeme to), _) (Term KWord mw w)).
   Qed.
 
+  Lemma Forall2_len {A B} (R : A -> B -> Prop) l l' : Forall2 R l l' -> length l = length l'.
+  Proof. induction 1; simpl; congruence. Qed.
+
   Lemma acc_eq a ws : 2 <= length ws -> acc_ok a ws -> item_eqb a (flat ws) = true.
   Proof.
     intros Hl [[w [-> _]]|[_ [m [ops [-> HF]]]]]; [simpl in Hl; lia|].
     unfold flat. rewrite item_eqb_unfold_op, cls_eqb_refl.
-    rewrite (Forall2_length HF), map_length, Nat.eqb_refl. unfold attrs_eqb. simpl cls_of. rewrite kk_attrs. simpl.
-    induction HF as [|o w ops ws [mo ->] _ IH]; simpl; [reflexivity|].
+    rewrite (Forall2_len _ _ _ HF), map_length, Nat.eqb_refl. unfold attrs_eqb. simpl cls_of. rewrite kk_attrs. simpl.
+    clear Hl. induction HF as [|o w ops ws [mo ->] _ IH]; simpl; [reflexivity|].
     unfold attrs_eqb. simpl. rewrite str_eqb_refl. simpl. apply IH.
   Qed.
 
@@ -387,9 +403,11 @@ Section Flat.
   Proof.
     intros Hp. exists (daht (flat (w1 :: w2 :: l))).
     assert (Hd : aht_defined (flat (w1 :: w2 :: l)) = true).
-    { unfold aht_defined, flat. rewrite every_node_unfold. simpl children.
-      apply andb_true_intro. split; [destruct kk; reflexivity|].
-      apply forallb_forall. intros x Hx. apply in_map_iff in Hx. destruct Hx as [w [<- _]]. reflexivity. }
+    { unfold aht_defined, flat. rewrite every_node_unfold.
+      apply andb_true_intro. split.
+      - change (map W (w1 :: w2 :: l)) with (W w1 :: map W (w2 :: l)). destruct kk; reflexivity.
+      - change (children (Op kk meta0 (map W (w1 :: w2 :: l)))) with (map W (w1 :: w2 :: l)).
+        apply forallb_forall. intros x Hx. apply in_map_iff in Hx. destruct Hx as [w [<- _]]. reflexivity. }
     rewrite aht_daht, Hd, print_flat.
     destruct (lex_flat w1 w2 l Hp) as [t1 [toks [Hlex [Ht1 [Hl1 Hm]]]]].
     unfold parse, parse_full, parse_with. rewrite Hlex.
@@ -416,3 +434,23 @@ Section Flat.
     apply acc_eq; [simpl; lia|exact Hacc].
   Qed.
 End Flat.
+
+(* ---------------------------------------------------------------- the two instances; every premise is a
+   closed fact about the generated tables / operator strings / reserved words, checked by computation *)
+Ltac flat_facts :=
+  try (vm_compute; reflexivity);
+  try (intros la [->| ->]; vm_compute; reflexivity);
+  try (intros t H; unfold token_value; rewrite H; reflexivity);
+  try (intros x [[l v] m] y; reflexivity).
+
+Theorem and_roundtrip w1 w2 l :
+  forallb plain_word (w1 :: w2 :: l) = true ->
+  exists t' b, aht (flat KAnd (w1 :: w2 :: l)) = Some t' /\ parse (print true t') = Some (Ok b) /\
+               item_eqb b (flat KAnd (w1 :: w2 :: l)) = true.
+Proof. apply (flat_roundtrip KAnd T_AND_OP A_expression_and 11 2 1 16 35 19 6 1); flat_facts. Qed.
+
+Theorem or_roundtrip w1 w2 l :
+  forallb plain_word (w1 :: w2 :: l) = true ->
+  exists t' b, aht (flat KOr (w1 :: w2 :: l)) = Some t' /\ parse (print true t') = Some (Ok b) /\
+               item_eqb b (flat KOr (w1 :: w2 :: l)) = true.
+Proof. apply (flat_roundtrip KOr T_OR_OP A_expression_or 11 2 1 15 34 19 6 0); flat_facts. Qed.
